@@ -366,7 +366,7 @@ OnRet(m00, e) ==
       mM ==
         CASE op = "unwrap" /\ ~pan ->
                LET a1 == Flag(mL, inDestr /\ res = "ok", "C12", "try_unwrap succeeded inside a finalizer or destructor")
-                   a2 == Flag(a1, ~inDestr /\ ~collOuter /\ ~CollRunning(m00) /\ unique /\ res # "ok" /\ ~m00.faulted, "C13", "try_unwrap failed on a unique pointer")
+                   a2 == Flag(a1, ~inDestr /\ ~collOuter /\ ~CollRunning(m00) /\ unique /\ res # "ok" /\ ~m00.objs[o].tainted, "C13", "try_unwrap failed on a unique pointer")
                    a3 == Flag(a2, res = "ok" /\ Known(m00, o) /\ (Cnt(m00, o) > 0), "C13", "try_unwrap succeeded although other Cc pointers exist")
                    a4 == Flag(a3, res = "ok" /\ (~Get(e, "vok", TRUE) \/ fr.ncb > 0), "C13", "try_unwrap did not return the value unchanged / ran a callback")
                    a5 == Flag(a4, res = "ok" /\ Known(mL, o) /\ mL.objs[o].bs # "freed", "C13", "try_unwrap did not release the allocation")
